@@ -10,6 +10,7 @@ package symex
 import (
 	"encoding/json"
 	"go/types"
+	"os"
 	"reflect"
 	"strconv"
 	"strings"
@@ -170,119 +171,7 @@ func (i *interpreter) parseConfigJSON(fr *frame, cfgPkg *ssa.Package, text strin
 	if v1 == nil {
 		panic(unsupported("config.ParseConfig stub: package v1 not loaded"))
 	}
-	var fill func(t types.Type, x any) (value, bool)
-	fill = func(t types.Type, x any) (value, bool) {
-		switch u := t.Underlying().(type) {
-		case *types.Pointer:
-			if x == nil {
-				return (*value)(nil), true
-			}
-			v, ok := fill(u.Elem(), x)
-			if !ok {
-				return nil, false
-			}
-			return &v, true
-		case *types.Struct:
-			m, isMap := x.(map[string]any)
-			if x == nil {
-				return zero(t), true
-			}
-			if !isMap {
-				return nil, false
-			}
-			out := zero(t).(structure)
-			for k := 0; k < u.NumFields(); k++ {
-				f := u.Field(k)
-				tag, _ := reflect.StructTag(u.Tag(k)).Lookup("json")
-				name, _, _ := strings.Cut(tag, ",")
-				if tag == "-" {
-					continue
-				}
-				if name == "" {
-					if f.Anonymous() {
-						// untagged embedded struct: its fields are read from the same object
-						v, ok := fill(f.Type(), x)
-						if !ok {
-							return nil, false
-						}
-						out[k] = v
-						continue
-					}
-					name = f.Name()
-				}
-				val, present := m[name]
-				if !present {
-					for key, vv := range m {
-						if strings.EqualFold(key, name) {
-							val, present = vv, true
-						}
-					}
-				}
-				if !present {
-					continue
-				}
-				v, ok := fill(f.Type(), val)
-				if !ok {
-					return nil, false
-				}
-				out[k] = v
-			}
-			return out, true
-		case *types.Slice:
-			if x == nil {
-				return []value(nil), true
-			}
-			xs, isList := x.([]any)
-			if !isList {
-				return nil, false
-			}
-			out := make([]value, len(xs))
-			for k, e := range xs {
-				v, ok := fill(u.Elem(), e)
-				if !ok {
-					return nil, false
-				}
-				out[k] = v
-			}
-			return out, true
-		case *types.Basic:
-			if x == nil {
-				return zero(t), true
-			}
-			switch {
-			case u.Kind() == types.String:
-				sv, ok := x.(string)
-				return sv, ok
-			case u.Kind() == types.Bool:
-				bv, ok := x.(bool)
-				return bv, ok
-			case u.Info()&types.IsInteger != 0:
-				n, ok := x.(json.Number)
-				if !ok {
-					return nil, false
-				}
-				iv, err := n.Int64()
-				if err != nil {
-					return nil, false
-				}
-				return mkInt(u.Kind(), uint64(iv)), true
-			case u.Info()&types.IsFloat != 0:
-				n, ok := x.(json.Number)
-				if !ok {
-					return nil, false
-				}
-				fv, err := n.Float64()
-				if err != nil {
-					return nil, false
-				}
-				if u.Kind() == types.Float32 {
-					return float32(fv), true
-				}
-				return fv, true
-			}
-		}
-		return nil, false
-	}
+	fill := jsonFill
 	run := func(typeName, fnName string) value {
 		cc, ok := fill(v1.Type(typeName).Type(), top)
 		if !ok {
@@ -302,4 +191,241 @@ func (i *interpreter) parseConfigJSON(fr *frame, cfgPkg *ssa.Package, text strin
 		return run("Profile", "initProfile")
 	}
 	return tuple{iface{}, i.errorFromString("can't parse as cert config / profile")}
+}
+
+// jsonFill stores a decoded JSON tree into a value of Go type t the way
+// json.Unmarshal does (json tags, case-insensitive names, pointers, slices,
+// untagged embedded structs, integers and floats).
+func jsonFill(t types.Type, x any) (value, bool) {
+	fill := jsonFill
+
+	switch u := t.Underlying().(type) {
+	case *types.Pointer:
+		if x == nil {
+			return (*value)(nil), true
+		}
+		v, ok := fill(u.Elem(), x)
+		if !ok {
+			return nil, false
+		}
+		return &v, true
+	case *types.Struct:
+		m, isMap := x.(map[string]any)
+		if x == nil {
+			return zero(t), true
+		}
+		if !isMap {
+			return nil, false
+		}
+		out := zero(t).(structure)
+		for k := 0; k < u.NumFields(); k++ {
+			f := u.Field(k)
+			tag, _ := reflect.StructTag(u.Tag(k)).Lookup("json")
+			name, _, _ := strings.Cut(tag, ",")
+			if tag == "-" {
+				continue
+			}
+			if name == "" {
+				if f.Anonymous() {
+					// untagged embedded struct: its fields are read from the same object
+					v, ok := fill(f.Type(), x)
+					if !ok {
+						return nil, false
+					}
+					out[k] = v
+					continue
+				}
+				name = f.Name()
+			}
+			val, present := m[name]
+			if !present {
+				for key, vv := range m {
+					if strings.EqualFold(key, name) {
+						val, present = vv, true
+					}
+				}
+			}
+			if !present {
+				continue
+			}
+			v, ok := fill(f.Type(), val)
+			if !ok {
+				return nil, false
+			}
+			out[k] = v
+		}
+		return out, true
+	case *types.Slice:
+		if x == nil {
+			return []value(nil), true
+		}
+		xs, isList := x.([]any)
+		if !isList {
+			return nil, false
+		}
+		out := make([]value, len(xs))
+		for k, e := range xs {
+			v, ok := fill(u.Elem(), e)
+			if !ok {
+				return nil, false
+			}
+			out[k] = v
+		}
+		return out, true
+	case *types.Basic:
+		if x == nil {
+			return zero(t), true
+		}
+		switch {
+		case u.Kind() == types.String:
+			sv, ok := x.(string)
+			return sv, ok
+		case u.Kind() == types.Bool:
+			bv, ok := x.(bool)
+			return bv, ok
+		case u.Info()&types.IsInteger != 0:
+			n, ok := x.(json.Number)
+			if !ok {
+				return nil, false
+			}
+			iv, err := n.Int64()
+			if err != nil {
+				return nil, false
+			}
+			return mkInt(u.Kind(), uint64(iv)), true
+		case u.Info()&types.IsFloat != 0:
+			n, ok := x.(json.Number)
+			if !ok {
+				return nil, false
+			}
+			fv, err := n.Float64()
+			if err != nil {
+				return nil, false
+			}
+			if u.Kind() == types.Float32 {
+				return float32(fv), true
+			}
+			return fv, true
+		}
+	}
+	return nil, false
+}
+
+// configTree decodes the text of a configuration file: JSON of any depth, or
+// flat `key: value` YAML with one nested `validity:` block (numbers, booleans
+// and strings as YAML would type them). ok is false for anything else.
+func configTree(text string) (map[string]any, bool) {
+	if t := strings.TrimSpace(text); strings.HasPrefix(t, "{") {
+		dec := json.NewDecoder(strings.NewReader(t))
+		dec.UseNumber()
+		var top map[string]any
+		if err := dec.Decode(&top); err != nil {
+			return nil, false
+		}
+		return top, true
+	}
+	scalar := func(v string) any {
+		v = strings.TrimSpace(v)
+		if len(v) >= 2 && (v[0] == '"' && v[len(v)-1] == '"' || v[0] == '\'' && v[len(v)-1] == '\'') {
+			return v[1 : len(v)-1]
+		}
+		if v == "true" {
+			return true
+		}
+		if v == "false" {
+			return false
+		}
+		if v == "" || v == "null" || v == "~" {
+			return nil
+		}
+		digits := true
+		for k, c := range v {
+			if !(c >= '0' && c <= '9') && !(k == 0 && c == '-' && len(v) > 1) {
+				digits = false
+			}
+		}
+		if digits {
+			return json.Number(v)
+		}
+		return v
+	}
+	top := map[string]any{}
+	section := ""
+	for _, line := range strings.Split(text, "\n") {
+		line = strings.TrimRight(line, "\r")
+		if strings.TrimSpace(line) == "" || strings.HasPrefix(strings.TrimSpace(line), "#") {
+			continue
+		}
+		k, v, found := strings.Cut(line, ":")
+		if found && strings.HasPrefix(line, "  ") && section != "" && !strings.ContainsAny(strings.TrimSpace(k), " \t{}[]") {
+			top[section].(map[string]any)[strings.TrimSpace(k)] = scalar(v)
+			continue
+		}
+		if !found || strings.HasPrefix(line, " ") || strings.ContainsAny(k, " \t{}[]") {
+			return nil, false // not a flat mapping: outside the reader's fragment
+		}
+		section = ""
+		if strings.TrimSpace(v) == "" {
+			section = strings.TrimSpace(k)
+			top[section] = map[string]any{}
+			continue
+		}
+		top[strings.TrimSpace(k)] = scalar(v)
+	}
+	return top, true
+}
+
+func init() {
+	if os.Getenv("GOSYM_PARSECONFIG_STUB") == "high" {
+		return // the older stub of config.ParseConfig as a whole stays in place
+	}
+	// The real config.ParseConfig / V1Configurator.ParseConfiguration /
+	// getFileType run; only the YAML library and the JSON-schema validator
+	// underneath them are modelled.
+	delete(stubs, ModulePath+"/generator/config.ParseConfig")
+	yamlErr := func(i *interpreter) value {
+		return i.errorFromString("yaml: the text is outside the fragment the reader models")
+	}
+	stubs["github.com/ghodss/yaml.Unmarshal"] = func(fr *frame, args []value) value {
+		i := fr.i
+		bs, ok := valuesToBytes(args[0].([]value))
+		if !ok {
+			panic(unsupported("yaml.Unmarshal of symbolic text"))
+		}
+		tree, ok := configTree(string(bs))
+		if !ok {
+			return yamlErr(i)
+		}
+		target, isIface := args[1].(iface)
+		ptr, isPtr := target.v.(*value)
+		pt, isPT := target.t.(*types.Pointer)
+		if !isIface || !isPtr || !isPT || ptr == nil {
+			panic(unsupported("yaml.Unmarshal into something that is not a pointer"))
+		}
+		v, ok := jsonFill(pt.Elem(), tree)
+		if !ok {
+			return i.errorFromString("json: cannot unmarshal the value into the Go type of the field")
+		}
+		*ptr = v
+		return iface{}
+	}
+	stubs["github.com/ghodss/yaml.YAMLToJSON"] = func(fr *frame, args []value) value {
+		i := fr.i
+		bs, ok := valuesToBytes(args[0].([]value))
+		if !ok {
+			panic(unsupported("yaml.YAMLToJSON of symbolic text"))
+		}
+		tree, ok := configTree(string(bs))
+		if !ok {
+			return tuple{[]value(nil), yamlErr(i)}
+		}
+		js, err := json.Marshal(tree)
+		if err != nil {
+			return tuple{[]value(nil), yamlErr(i)}
+		}
+		return tuple{bytesToValues(js), iface{}}
+	}
+	stubs["(*github.com/santhosh-tekuri/jsonschema.Schema).Validate"] = func(fr *frame, args []value) value {
+		return iface{} // schema validation is outside every claim
+	}
 }
